@@ -84,8 +84,31 @@ fn child(prog: &str, seed: u64) -> i32 {
     }
 }
 
+/// Development aid: catch rate of the block-queue window over many schedules.
+fn rate(seed: u64, n: u64) {
+    let mut hit = 0;
+    let mut tot = Stats::default();
+    for i in 0..n {
+        let r = under_sim(seed ^ (i.wrapping_mul(0x9E37_79B9_7F4A_7C15)), || bbtarget::block_queue(400, 64, 40));
+        if !r.value {
+            hit += 1;
+        }
+        tot.add(&r.stats);
+    }
+    println!(
+        "block_queue window caught in {}/{} schedules; steps={} bb_yields={} rare_yields={} suspensions={} switches={}",
+        hit, n, tot.scheduler_steps, tot.bb_yields, tot.bb_rare_yields, tot.rare_site_suspensions, tot.context_switches
+    );
+}
+
 fn main() {
     let args: Vec<String> = std::env::args().collect();
+    if args.get(1).map(|s| s.as_str()) == Some("rate") {
+        let seed: u64 = args.get(2).and_then(|s| s.parse().ok()).unwrap_or(1);
+        let n: u64 = args.get(3).and_then(|s| s.parse().ok()).unwrap_or(200);
+        rate(seed, n);
+        return;
+    }
     if args.get(1).map(|s| s.as_str()) == Some("child") {
         let seed: u64 = args.get(3).and_then(|s| s.parse().ok()).unwrap_or(1);
         std::process::exit(child(args.get(2).map(|s| s.as_str()).unwrap_or(""), seed));
